@@ -1,7 +1,479 @@
-(* C18 lemmas *)
-From Coq Require Import ZArith QArith List Bool Lia Lqa.
+(* C18 lemmas: probvec on the simplex, sampling without replacement, k-sparse rows, tournaments *)
+From Coq Require Import ZArith QArith Qround List Bool Lia Lqa Sorted Permutation.
 From QE Require Import Base.Num C16.Model C18.Model.
 Import ListNotations.
 
 Lemma updl_length {A} (a : list A) i v : length (updl a i v) = length a.
 Proof. revert i. induction a; intros [|i]; simpl; auto. Qed.
+
+(* ------------------------------------------------------------------ probvec (exact instance) *)
+Local Open Scope Q_scope.
+
+Lemma insert_Forall (P : Q -> Prop) x l : P x -> Forall P l -> Forall P (@insert Q NumQ x l).
+Proof.
+  intros Hx Hl. induction Hl; simpl; [repeat constructor; auto|].
+  destruct (Qle_bool x x0); repeat constructor; auto.
+Qed.
+Lemma isort_Forall (P : Q -> Prop) l : Forall P l -> Forall P (@isort Q NumQ l).
+Proof. induction 1; simpl; [constructor|]. apply insert_Forall; auto. Qed.
+Lemma insert_length x l : length (@insert Q NumQ x l) = S (length l).
+Proof. induction l; simpl; auto. destruct (Qle_bool x a); simpl; auto. Qed.
+Lemma isort_length l : length (@isort Q NumQ l) = length l.
+Proof. induction l; simpl; auto. rewrite insert_length. auto. Qed.
+
+Lemma insert_sorted x l : Sorted Qle l -> Sorted Qle (@insert Q NumQ x l).
+Proof.
+  induction 1 as [|y l Hs IH Hd]; simpl; [repeat constructor|].
+  destruct (Qle_bool x y) eqn:E.
+  - apply Qle_bool_iff in E. repeat constructor; auto.
+  - assert (Hyx : y <= x).
+    { apply Qlt_le_weak. apply Qnot_le_lt. intro H. apply Qle_bool_iff in H. congruence. }
+    constructor; [exact IH|].
+    destruct l as [|z l']; simpl.
+    + constructor. exact Hyx.
+    + inversion Hd; subst. destruct (Qle_bool x z); constructor; auto.
+Qed.
+Lemma isort_sorted l : Sorted Qle (@isort Q NumQ l).
+Proof. induction l; simpl; [constructor | apply insert_sorted; auto]. Qed.
+
+Lemma spacings_spec prev l : Sorted Qle (prev :: l) -> Forall (fun x => x < 1) (prev :: l) ->
+  Forall (fun x => 0 <= x) (@spacings Q NumQ prev l) /\ qsum (@spacings Q NumQ prev l) == 1 - prev /\
+  length (@spacings Q NumQ prev l) = S (length l).
+Proof.
+  revert prev. induction l as [|x r IH]; intros prev Hs Hb; simpl.
+  - inversion Hb; subst. unfold Qsubr. repeat split.
+    + constructor; [|constructor]. rewrite Qred_correct. lra.
+    + cbn [qsum fold_right]. rewrite Qred_correct. ring.
+  - inversion Hs as [|? ? Hs' Hd]; subst. inversion Hd; subst. inversion Hb; subst.
+    destruct (IH x Hs' H3) as [F [S L]].
+    repeat split.
+    + constructor; [|exact F]. unfold Qsubr. rewrite Qred_correct. lra.
+    + rewrite S. unfold Qsubr. rewrite Qred_correct. ring.
+    + rewrite L. reflexivity.
+Qed.
+
+Lemma probvec_simplex (r : list Q) : Forall (fun x => 0 <= x < 1) r ->
+  Forall (fun x => 0 <= x) (@probvec_row Q NumQ r) /\ qsum (@probvec_row Q NumQ r) == 1 /\
+  length (@probvec_row Q NumQ r) = S (length r).
+Proof.
+  intros H. unfold probvec_row.
+  pose proof (isort_sorted r) as Hs. pose proof (isort_Forall _ r H) as Hf. pose proof (isort_length r) as Hl.
+  destruct (@isort Q NumQ r) as [|x s]; simpl.
+  - destruct r; simpl in Hl; [|discriminate]. split; [|split]; [|cbn; ring|reflexivity]. constructor; [lra|constructor].
+  - assert (Hb : Forall (fun x => x < 1) (x :: s)) by (eapply Forall_impl; [|exact Hf]; simpl; intros; lra).
+    destruct (spacings_spec x s Hs Hb) as [F [S L]].
+    inversion Hf; subst. split; [|split].
+    + constructor; [lra | exact F].
+    + cbn [qsum fold_right]. fold (qsum (@spacings Q NumQ x s)). rewrite S. ring.
+    + simpl in Hl. simpl. rewrite L. lia.
+Qed.
+
+(* ------------------------------------------------------------------ sampling without replacement *)
+Lemma updl_split {A} (l : list A) i v d : (i < length l)%nat ->
+  l = firstn i l ++ nth i l d :: skipn (S i) l /\ updl l i v = firstn i l ++ v :: skipn (S i) l.
+Proof.
+  revert i. induction l as [|x l IH]; intros [|i] H; simpl in *; try lia.
+  - split; reflexivity.
+  - destruct (IH i ltac:(lia)) as [E1 E2]. split; [f_equal; exact E1 | f_equal; exact E2].
+Qed.
+
+Lemma updl_oob {A} (l : list A) i v : (length l <= i)%nat -> updl l i v = l.
+Proof. revert i. induction l as [|x l IH]; intros [|i] H; simpl in *; try lia; auto. f_equal. apply IH. lia. Qed.
+
+Lemma firstn_updl {A} (l : list A) k i v : firstn k (updl l i v) = updl (firstn k l) i v.
+Proof.
+  revert k i. induction l as [|x l IH]; intros [|k] [|i]; simpl; auto. f_equal. apply IH.
+Qed.
+
+Lemma firstn_snoc {A} (l : list A) k d : (k < length l)%nat -> firstn (S k) l = firstn k l ++ [nth k l d].
+Proof.
+  revert k. induction l as [|x l IH]; intros [|k] H; simpl in *; try lia; auto. f_equal. apply IH. lia.
+Qed.
+
+Lemma nth_firstn {A} (l : list A) k i d : (i < k)%nat -> nth i (firstn k l) d = nth i l d.
+Proof.
+  revert k i. induction l as [|x l IH]; intros [|k] [|i] H; simpl; try lia; auto. apply IH. lia.
+Qed.
+
+(* one step of the pool swap: the active prefix loses exactly the drawn element *)
+Lemma swr_step_perm (pool : list Z) m idx : (1 <= m <= length pool)%nat -> (idx < m)%nat ->
+  Permutation (firstn m pool)
+              (nth idx pool 0%Z :: firstn (m - 1) (updl pool idx (nth (m - 1) pool 0%Z))).
+Proof.
+  intros Hm Hi. destruct m as [|k]; [lia|]. simpl Nat.sub. rewrite Nat.sub_0_r.
+  rewrite (firstn_snoc pool k 0%Z) by lia. rewrite firstn_updl.
+  set (B := firstn k pool). set (lastv := nth k pool 0%Z).
+  assert (LB : length B = k) by (unfold B; rewrite firstn_length; lia).
+  destruct (Nat.eq_dec idx k) as [E|E].
+  - subst idx. rewrite updl_oob by lia. fold lastv. symmetry. apply Permutation_cons_append.
+  - assert (Hik : (idx < k)%nat) by lia.
+    destruct (updl_split B idx lastv 0%Z ltac:(lia)) as [E1 E2].
+    rewrite E2. rewrite <- (nth_firstn pool k idx 0%Z Hik). fold B.
+    set (x := nth idx B 0%Z) in *. set (B1 := firstn idx B) in *. set (B2 := skipn (S idx) B) in *.
+    rewrite E1. rewrite <- app_assoc. simpl.
+    apply Permutation_sym. apply Permutation_cons_app.
+    apply Permutation_app_head. apply Permutation_cons_append.
+Qed.
+
+Lemma swr_loop_spec : forall idxs pool m,
+  (m <= length pool)%nat -> NoDup (firstn m pool) -> (length idxs <= m)%nat ->
+  (forall j, (j < length idxs)%nat -> (nth j idxs 0 < m - j)%nat) ->
+  length (swr_loop pool m idxs) = length idxs /\ NoDup (swr_loop pool m idxs) /\
+  incl (swr_loop pool m idxs) (firstn m pool).
+Proof.
+  induction idxs as [|idx rest IH]; intros pool m Hm Hnd Hlen Hidx; simpl.
+  - repeat split; [constructor | intros x []].
+  - simpl in Hlen. assert (Hi : (idx < m)%nat) by (specialize (Hidx 0%nat ltac:(simpl; lia)); simpl in Hidx; lia).
+    pose proof (swr_step_perm pool m idx ltac:(lia) Hi) as P.
+    set (pool' := updl pool idx (nth (m - 1) pool 0%Z)) in *.
+    assert (Hnd' : NoDup (nth idx pool 0%Z :: firstn (m - 1) pool')) by (eapply Permutation_NoDup; eauto).
+    inversion Hnd' as [|? ? Hnotin Hnd'']; subst.
+    destruct (IH pool' (m - 1)%nat) as [L [ND INC]].
+    + unfold pool'. rewrite updl_length. lia.
+    + exact Hnd''.
+    + lia.
+    + intros j Hj. specialize (Hidx (S j) ltac:(simpl; lia)). simpl in Hidx. lia.
+    + split; [simpl; rewrite L; reflexivity|]. split.
+      * constructor; [|exact ND]. intro Hin. apply Hnotin. apply INC. exact Hin.
+      * intros y [Hy|Hy].
+        -- subst y. eapply Permutation_in; [apply Permutation_sym; exact P|]. left. reflexivity.
+        -- eapply Permutation_in; [apply Permutation_sym; exact P|]. right. apply INC. exact Hy.
+Qed.
+
+Lemma swr_spec n idxs : (length idxs <= n)%nat ->
+  (forall j, (j < length idxs)%nat -> (nth j idxs 0 < n - j)%nat) ->
+  length (swr n idxs) = length idxs /\ NoDup (swr n idxs) /\
+  Forall (fun v => (0 <= v < Z.of_nat n)%Z) (swr n idxs).
+Proof.
+  intros Hl Hi. unfold swr. set (pool := map Z.of_nat (seq 0 n)).
+  assert (Lp : length pool = n) by (unfold pool; rewrite map_length, seq_length; reflexivity).
+  assert (F : firstn n pool = pool) by (rewrite <- Lp; apply firstn_all).
+  destruct (swr_loop_spec idxs pool n) as [L [ND INC]]; try lia; auto.
+  - rewrite F. unfold pool. apply FinFun.Injective_map_NoDup; [intros a b; lia | apply seq_NoDup].
+  - split; [exact L|]. split; [exact ND|].
+    apply Forall_forall. intros v Hv. apply INC in Hv. rewrite F in Hv. unfold pool in Hv.
+    apply in_map_iff in Hv. destruct Hv as [i [Hv Hin]]. apply in_seq in Hin. lia.
+Qed.
+
+(* exact arithmetic: 0 <= r < 1 gives floor(r m) < m *)
+Lemma idx_Q_lt m r : (0 < m)%nat -> 0 <= r < 1 -> (idx_Q m r < m)%nat.
+Proof.
+  intros Hm [H0 H1]. unfold idx_Q.
+  set (q := inject_Z (Z.of_nat m)).
+  assert (Hq : 0 < q) by (unfold q; change 0 with (inject_Z 0); rewrite <- Zlt_Qlt; lia).
+  assert (Hlt : r * q < q) by nra.
+  assert (Hge : 0 <= r * q) by nra.
+  assert (F1 : (Qfloor (r * q) < Z.of_nat m)%Z).
+  { destruct (Z_lt_le_dec (Qfloor (r * q)) (Z.of_nat m)) as [?|Hc]; [assumption|].
+    exfalso. pose proof (Qfloor_le (r * q)) as Fl. rewrite Zle_Qle in Hc. fold q in Hc. lra. }
+  assert (F0 : (0 <= Qfloor (r * q))%Z).
+  { change 0%Z with (Qfloor 0). apply Qfloor_resp_le. exact Hge. }
+  lia.
+Qed.
+
+Lemma idxs_Q_valid : forall rs m, (length rs <= m)%nat -> Forall (fun r => 0 <= r < 1) rs ->
+  forall j, (j < length rs)%nat -> (nth j (idxs_Q m rs) 0 < m - j)%nat.
+Proof.
+  induction rs as [|r rs IH]; intros m Hl Hf j Hj; simpl in *; [lia|].
+  inversion Hf; subst. destruct j as [|j].
+  - rewrite Nat.sub_0_r. apply idx_Q_lt; [lia | assumption].
+  - specialize (IH (m - 1)%nat ltac:(lia) H2 j ltac:(lia)). lia.
+Qed.
+
+Lemma idxs_Q_length rs m : length (idxs_Q m rs) = length rs.
+Proof. revert m. induction rs; intros m; simpl; auto. Qed.
+
+Lemma swr_Q_spec n rs : (length rs <= n)%nat -> Forall (fun r => 0 <= r < 1) rs ->
+  length (swr_Q n rs) = length rs /\ NoDup (swr_Q n rs) /\
+  Forall (fun v => (0 <= v < Z.of_nat n)%Z) (swr_Q n rs).
+Proof.
+  intros Hl Hf. unfold swr_Q.
+  destruct (swr_spec n (idxs_Q n rs)) as [L R].
+  - rewrite idxs_Q_length. exact Hl.
+  - rewrite idxs_Q_length. apply idxs_Q_valid; auto.
+  - rewrite idxs_Q_length in L. split; auto.
+Qed.
+
+(* ------------------------------------------------------------------ k-sparse rows *)
+Lemma nth_updl_same {A} (l : list A) i v d : (i < length l)%nat -> nth i (updl l i v) d = v.
+Proof. revert i. induction l as [|x l IH]; intros [|i] H; simpl in *; try lia; auto. apply IH. lia. Qed.
+Lemma nth_updl_other {A} (l : list A) i j v d : i <> j -> nth j (updl l i v) d = nth j l d.
+Proof. revert i j. induction l as [|x l IH]; intros [|i] [|j] H; simpl; auto; try congruence. Qed.
+
+Lemma qsum_updl l i v : (i < length l)%nat -> qsum (updl l i v) == qsum l - nth i l 0 + v.
+Proof.
+  revert i. induction l as [|x l IH]; intros [|i] H; simpl in *; try lia.
+  - ring.
+  - rewrite IH by lia. ring.
+Qed.
+
+Definition placeF (row0 : list Q) (cd : list (nat * Q)) : list Q :=
+  fold_left (fun row cv => updl row (fst cv) (snd cv)) cd row0.
+
+Lemma placeF_spec : forall cd row0,
+  NoDup (map fst cd) -> Forall (fun c => (c < length row0)%nat) (map fst cd) ->
+  (forall c, In c (map fst cd) -> nth c row0 0 == 0) ->
+  length (placeF row0 cd) = length row0 /\
+  (forall c v, In (c, v) cd -> nth c (placeF row0 cd) 0 = v) /\
+  (forall c, ~ In c (map fst cd) -> nth c (placeF row0 cd) 0 = nth c row0 0) /\
+  qsum (placeF row0 cd) == qsum row0 + qsum (map snd cd).
+Proof.
+  induction cd as [|[c v] cd IH]; intros row0 Hnd Hb Hz; simpl in *.
+  - repeat split; auto; [intros ? ? [] | ring].
+  - inversion Hnd as [|? ? Hnotin Hnd']; subst. inversion Hb as [|? ? Hc Hb']; subst.
+    set (row1 := updl row0 c v).
+    destruct (IH row1) as [L [V [O S]]].
+    + exact Hnd'.
+    + unfold row1. rewrite updl_length. exact Hb'.
+    + intros c' Hc'. unfold row1. rewrite nth_updl_other by (intro; subst; contradiction). apply Hz. right. exact Hc'.
+    + fold (placeF row1 cd). split; [rewrite L; unfold row1; apply updl_length|]. split; [|split].
+      * intros c' v' [E|Hin].
+        -- inversion E; subst. rewrite O by exact Hnotin. unfold row1. apply nth_updl_same. exact Hc.
+        -- apply V. exact Hin.
+      * intros c' Hn. rewrite O by (intro; apply Hn; right; assumption).
+        unfold row1. apply nth_updl_other. intro; subst. apply Hn. left. reflexivity.
+      * rewrite S. unfold row1. rewrite qsum_updl by exact Hc. rewrite (Hz c) by (left; reflexivity). ring.
+Qed.
+
+Lemma qsum_repeat0 n : qsum (repeat 0 n) == 0.
+Proof. induction n; simpl; [reflexivity | rewrite IHn; ring]. Qed.
+Lemma nth_repeat0 n c : nth c (repeat 0 n) 0 = 0.
+Proof. revert c. induction n; intros [|c]; simpl; auto. Qed.
+
+Lemma map_fst_combine {A B} (a : list A) (b : list B) : length a = length b -> map fst (combine a b) = a.
+Proof. revert b. induction a; intros [|y b] H; simpl in *; try lia; auto. f_equal. apply IHa. lia. Qed.
+Lemma map_snd_combine {A B} (a : list A) (b : list B) : length a = length b -> map snd (combine a b) = b.
+Proof. revert b. induction a; intros [|y b] H; simpl in *; try lia; auto. f_equal. apply IHa. lia. Qed.
+
+Lemma place_spec n cols (data : list Q) :
+  NoDup cols -> Forall (fun c => (c < n)%nat) cols -> length cols = length data ->
+  let row := @place Q NumQ n cols data in
+  length row = n /\
+  (forall t, (t < length cols)%nat -> nth (nth t cols 0%nat) row 0 = nth t data 0) /\
+  (forall c, ~ In c cols -> nth c row 0 = 0) /\
+  qsum row == qsum data.
+Proof.
+  intros Hnd Hb Hl row. unfold row, place. fold (placeF (repeat (@nzero Q NumQ) n) (combine cols data)).
+  change (@nzero Q NumQ) with 0.
+  destruct (placeF_spec (combine cols data) (repeat 0 n)) as [L [V [O S]]].
+  - rewrite map_fst_combine by exact Hl. exact Hnd.
+  - rewrite map_fst_combine by exact Hl. rewrite repeat_length. exact Hb.
+  - intros c _. rewrite nth_repeat0. reflexivity.
+  - rewrite repeat_length in L. split; [exact L|]. split; [|split].
+    + intros t Ht. apply V. rewrite <- (combine_nth cols data t 0%nat 0 Hl). apply nth_In.
+      rewrite combine_length. lia.
+    + intros c Hn. rewrite O by (rewrite map_fst_combine by exact Hl; exact Hn). apply nth_repeat0.
+    + rewrite S, qsum_repeat0, map_snd_combine by exact Hl. ring.
+Qed.
+
+Lemma NoDup_map_inj_in {A B} (f : A -> B) l :
+  (forall a b, In a l -> In b l -> f a = f b -> a = b) -> NoDup l -> NoDup (map f l).
+Proof.
+  intros Hinj Hnd. induction Hnd as [|x l Hx Hnd IH]; simpl; [constructor|].
+  constructor.
+  - intro Hin. apply in_map_iff in Hin. destruct Hin as [y [Ey Hy]].
+    assert (y = x) by (apply Hinj; [right; exact Hy | left; reflexivity | exact Ey]). subst. contradiction.
+  - apply IH. intros a b Ha Hb. apply Hinj; right; assumption.
+Qed.
+
+(* a row of random_stochastic_matrix (k < n) from exact draws in [0,1) *)
+Lemma rsm_row_spec n (u1 u2 : list Q) :
+  S (length u1) = length u2 -> (length u2 <= n)%nat ->
+  Forall (fun r => 0 <= r < 1) u1 -> Forall (fun r => 0 <= r < 1) u2 ->
+  let cols := map Z.to_nat (swr_Q n u2) in
+  let row := @place Q NumQ n cols (@probvec_row Q NumQ u1) in
+  length row = n /\ NoDup cols /\ length cols = length u2 /\ Forall (fun c => (c < n)%nat) cols /\
+  (forall c, ~ In c cols -> nth c row 0 = 0) /\
+  (forall t, (t < length cols)%nat -> nth (nth t cols 0%nat) row 0 = nth t (@probvec_row Q NumQ u1) 0) /\
+  (forall c, 0 <= nth c row 0) /\
+  qsum row == 1.
+Proof.
+  intros Hk Hn H1 H2 cols row.
+  destruct (probvec_simplex u1 H1) as [Pn [Ps Pl]].
+  destruct (swr_Q_spec n u2 Hn H2) as [Sl [Snd Sr]].
+  assert (Cnd : NoDup cols).
+  { unfold cols. apply NoDup_map_inj_in; [|exact Snd].
+    intros a b Ha Hb E. rewrite Forall_forall in Sr. pose proof (Sr a Ha). pose proof (Sr b Hb). lia. }
+  assert (Cl : length cols = length u2) by (unfold cols; rewrite map_length; exact Sl).
+  assert (Cb : Forall (fun c => (c < n)%nat) cols).
+  { unfold cols. apply Forall_map. eapply Forall_impl; [|exact Sr]. simpl. intros; lia. }
+  destruct (place_spec n cols (@probvec_row Q NumQ u1) Cnd Cb ltac:(lia)) as [L [V [O S]]].
+  fold row in L, V, O, S.
+  repeat split; auto.
+  - intros c. destruct (in_dec Nat.eq_dec c cols) as [Hin|Hout].
+    + destruct (In_nth cols c 0%nat Hin) as [t [Ht Et]]. rewrite <- Et, V by exact Ht.
+      rewrite Forall_forall in Pn. apply Pn. apply nth_In. lia.
+    + rewrite O by exact Hout. lra.
+  - rewrite S. exact Ps.
+Qed.
+
+(* ------------------------------------------------------------------ tournaments *)
+Lemma in_pairs n i j : In (i, j) (pairs n) <-> (i < j < n)%nat.
+Proof.
+  unfold pairs. rewrite in_flat_map. split.
+  - intros [x [Hx Hin]]. apply in_seq in Hx. apply in_map_iff in Hin. destruct Hin as [y [E Hy]].
+    inversion E; subst. apply in_seq in Hy. lia.
+  - intros H. exists i. split; [apply in_seq; lia|]. apply in_map_iff. exists j. split; [reflexivity|].
+    apply in_seq. lia.
+Qed.
+
+Lemma NoDup_app' {A} (a b : list A) : NoDup a -> NoDup b -> (forall x, In x a -> ~ In x b) -> NoDup (a ++ b).
+Proof.
+  intros Ha Hb Hd. induction Ha as [|x a Hx Ha IH]; simpl; [exact Hb|].
+  constructor.
+  - intro Hin. apply in_app_or in Hin. destruct Hin as [?|Hin]; [contradiction|]. apply (Hd x); [left; reflexivity | exact Hin].
+  - apply IH. intros y Hy. apply Hd. right. exact Hy.
+Qed.
+
+Lemma NoDup_pairs n : NoDup (pairs n).
+Proof.
+  unfold pairs. generalize (seq_NoDup n 0). generalize (seq 0 n). intros l Hl.
+  induction Hl as [|x l Hx Hl IH]; simpl; [constructor|].
+  apply NoDup_app'.
+  - apply FinFun.Injective_map_NoDup; [intros a b E; inversion E; reflexivity | apply seq_NoDup].
+  - exact IH.
+  - intros [a b] Hin Hin2. apply in_map_iff in Hin. destruct Hin as [y [E _]]. inversion E; subst.
+    apply in_flat_map in Hin2. destruct Hin2 as [x' [Hx' Hin2]]. apply in_map_iff in Hin2.
+    destruct Hin2 as [y' [E' _]]. inversion E'; subst. contradiction.
+Qed.
+
+Lemma NoDup_fst_functional {A B} (l : list (A * B)) k v1 v2 :
+  NoDup (map fst l) -> In (k, v1) l -> In (k, v2) l -> v1 = v2.
+Proof.
+  induction l as [|[a b] l IH]; simpl; intros Hnd H1 H2; [contradiction|].
+  inversion Hnd as [|? ? Hn Hnd']; subst.
+  destruct H1 as [E1|H1]; destruct H2 as [E2|H2].
+  - congruence.
+  - inversion E1; subst. exfalso. apply Hn. apply in_map_iff. exists (k, v2). split; auto.
+  - inversion E2; subst. exfalso. apply Hn. apply in_map_iff. exists (k, v1). split; auto.
+  - apply IH; auto.
+Qed.
+
+Lemma in_combine_fst {A B} (a : list A) (b : list B) x : (length a <= length b)%nat -> In x a -> exists y, In (x, y) (combine a b).
+Proof.
+  revert b. induction a as [|h a IH]; intros [|y b] Hl Hin; simpl in *; try lia; try contradiction.
+  destruct Hin as [E|Hin].
+  - subst. exists y. left. reflexivity.
+  - destruct (IH b ltac:(lia) Hin) as [y' Hy']. exists y'. right. exact Hy'.
+Qed.
+
+Lemma NoDup_map_fst_combine {A B} (a : list A) (b : list B) : NoDup a -> NoDup (map fst (combine a b)).
+Proof.
+  intros Ha. revert b. induction Ha as [|x a Hx Ha IH]; intros [|y b]; simpl; try constructor.
+  - intro Hin. apply in_map_iff in Hin. destruct Hin as [[x' y'] [E Hin]]. simpl in E. subst x'.
+    apply in_combine_l in Hin. contradiction.
+  - apply IH.
+Qed.
+
+Lemma tournament_spec n rs : (length (pairs n) <= length rs)%nat ->
+  let edges := tournament_edges n rs in
+  (forall a b, In (a, b) edges -> a <> b /\ (a < n)%nat /\ (b < n)%nat) /\
+  (forall i j, (i < j < n)%nat ->
+     (In (i, j) edges /\ ~ In (j, i) edges) \/ (~ In (i, j) edges /\ In (j, i) edges)).
+Proof.
+  intros Hl edges. unfold edges, tournament_edges.
+  set (cp := combine (pairs n) rs).
+  assert (Hcp : forall p r, In (p, r) cp -> (fst p < snd p < n)%nat).
+  { intros [a b] r Hin. apply in_combine_l in Hin. apply in_pairs in Hin. exact Hin. }
+  assert (Hedge : forall a b, In (a, b) (map orient cp) ->
+            exists r, (In ((a, b), r) cp /\ Qltb r (1 # 2) = true) \/ (In ((b, a), r) cp /\ Qltb r (1 # 2) = false)).
+  { intros a b Hin. apply in_map_iff in Hin. destruct Hin as [[[x y] r] [E Hin]].
+    unfold orient in E. simpl in E. exists r. destruct (Qltb r (1 # 2)) eqn:Q.
+    - inversion E; subst. left. auto.
+    - inversion E; subst. right. auto. }
+  split.
+  - intros a b Hin. destruct (Hedge a b Hin) as [r [[H _]|[H _]]]; apply Hcp in H; simpl in H; lia.
+  - intros i j Hij.
+    assert (Hp : In (i, j) (pairs n)) by (apply in_pairs; exact Hij).
+    destruct (in_combine_fst (pairs n) rs (i, j) Hl Hp) as [r Hr]. fold cp in Hr.
+    assert (Hnd : NoDup (map fst cp)) by (apply NoDup_map_fst_combine, NoDup_pairs).
+    destruct (Qltb r (1 # 2)) eqn:Q; [left | right]; split.
+    + apply in_map_iff. exists ((i, j), r). split; [unfold orient; simpl; rewrite Q; reflexivity | exact Hr].
+    + intro Hin. destruct (Hedge j i Hin) as [r' [[H _]|[H Q']]].
+      * apply Hcp in H. simpl in H. lia.
+      * assert (r = r') by (eapply NoDup_fst_functional; eauto). subst. congruence.
+    + intro Hin. destruct (Hedge i j Hin) as [r' [[H Q']|[H _]]].
+      * assert (r = r') by (eapply NoDup_fst_functional; eauto). subst. congruence.
+      * apply Hcp in H. simpl in H. lia.
+    + apply in_map_iff. exists ((i, j), r). split; [unfold orient; simpl; rewrite Q; reflexivity | exact Hr].
+Qed.
+
+(* ------------------------------------------------------------------ generator kernels = closed forms *)
+Lemma nth_map_seq {A} (f : nat -> A) n i d : (i < n)%nat -> nth i (map f (seq 0 n)) d = f i.
+Proof.
+  intros H. rewrite (nth_indep _ d (f 0%nat)) by (rewrite map_length, seq_length; exact H).
+  rewrite map_nth, seq_nth by exact H. reflexivity.
+Qed.
+
+Lemma tab2_nth {A} n m (f : nat -> nat -> A) i j d : (i < n)%nat -> (j < m)%nat ->
+  nth j (nth i (tab2 n m f) []) d = f i j.
+Proof. intros Hi Hj. unfold tab2. rewrite nth_map_seq by exact Hi. apply nth_map_seq. exact Hj. Qed.
+
+Lemma tab2_shape {A} n m (f : nat -> nat -> A) :
+  length (tab2 n m f) = n /\ Forall (fun r => length r = m) (tab2 n m f).
+Proof.
+  unfold tab2. split; [rewrite map_length, seq_length; reflexivity|].
+  apply Forall_forall. intros r Hr. apply in_map_iff in Hr. destruct Hr as [i [E _]]. subst.
+  rewrite map_length, seq_length. reflexivity.
+Qed.
+
+(* Blotto: value of hill k to the side with strictly more troops, split on ties *)
+Definition blotto_share0 (xyv : Z * Z * (Q * Q)) : Q :=
+  let '(x, y, v) := xyv in if (x =? y)%Z then fst v / 2 else if (x <? y)%Z then 0 else fst v.
+Definition blotto_share1 (xyv : Z * Z * (Q * Q)) : Q :=
+  let '(x, y, v) := xyv in if (x =? y)%Z then snd v / 2 else if (x <? y)%Z then snd v else 0.
+
+Definition blotto_step (p : Q * Q) (xyv : Z * Z * (Q * Q)) : Q * Q :=
+  let '(x, y, v) := xyv in
+  if (x =? y)%Z then (fst p + fst v / 2, snd p + snd v / 2)
+  else if (x <? y)%Z then (fst p, snd p + snd v)
+  else (fst p + fst v, snd p).
+
+Lemma blotto_fold l : forall p,
+  fst (fold_left blotto_step l p) == fst p + qsum (map blotto_share0 l) /\
+  snd (fold_left blotto_step l p) == snd p + qsum (map blotto_share1 l).
+Proof.
+  induction l as [|[[x y] v] l IH]; intros p.
+  - simpl. split; ring.
+  - change (fold_left blotto_step ((x, y, v) :: l) p) with (fold_left blotto_step l (blotto_step p (x, y, v))).
+    destruct (IH (blotto_step p (x, y, v))) as [F S]. split.
+    + rewrite F. cbn [map]. unfold qsum. cbn [fold_right]. unfold blotto_step, blotto_share0.
+      destruct (x =? y)%Z; [cbn [fst snd]; ring|]. destruct (x <? y)%Z; cbn [fst snd]; ring.
+    + rewrite S. cbn [map]. unfold qsum. cbn [fold_right]. unfold blotto_step, blotto_share1.
+      destruct (x =? y)%Z; [cbn [fst snd]; ring|]. destruct (x <? y)%Z; cbn [fst snd]; ring.
+Qed.
+
+Lemma blotto_cell_spec ai aj values :
+  fst (blotto_cell ai aj values) == qsum (map blotto_share0 (combine (combine ai aj) values)) /\
+  snd (blotto_cell ai aj values) == qsum (map blotto_share1 (combine (combine ai aj) values)).
+Proof.
+  change (blotto_cell ai aj values) with (fold_left blotto_step (combine (combine ai aj) values) (0, 0)).
+  destruct (blotto_fold (combine (combine ai aj) values) (0, 0)) as [F S].
+  rewrite F, S. simpl. split; ring.
+Qed.
+
+Lemma blotto_payoff_spec actions values i j : (i < length actions)%nat -> (j < length actions)%nat ->
+  let a := fun t => nth t actions [] in
+  let '(P0, P1) := blotto_payoffs actions values in
+  nth j (nth i P0 []) 0 == qsum (map blotto_share0 (combine (combine (a i) (a j)) values)) /\
+  nth i (nth j P1 []) 0 == qsum (map blotto_share1 (combine (combine (a i) (a j)) values)).
+Proof.
+  intros Hi Hj a. unfold blotto_payoffs. rewrite !tab2_nth by assumption.
+  apply blotto_cell_spec.
+Qed.
+
+(* ranking game: prize 1 to the higher score (split on ties) minus the cost of the chosen effort *)
+Lemma ranking_payoff_spec n s0 s1 c0 c1 i j : (i < n)%nat -> (j < n)%nat ->
+  let sc := fun (s : list Z) t => nth t s 0%Z in
+  let cost := fun (c : list Q) t => match t with O => 0 | S t' => - nth t' c 0 end in
+  let '(P0, P1) := ranking_payoffs n s0 s1 c0 c1 in
+  nth j (nth i P0 []) 0 = (if (sc s0 i >? sc s1 j)%Z then cost c0 i + 1
+                           else if (sc s0 i <? sc s1 j)%Z then cost c0 i else cost c0 i + 1 / 2) /\
+  nth i (nth j P1 []) 0 = (if (sc s0 i >? sc s1 j)%Z then cost c1 j
+                           else if (sc s0 i <? sc s1 j)%Z then cost c1 j + 1 else cost c1 j + 1 / 2).
+Proof. intros Hi Hj sc cost. unfold ranking_payoffs. rewrite !tab2_nth by assumption. split; reflexivity. Qed.
+
+(* unit vector game: column j of player 0's payoff matrix is the unit vector e_{ones_ind[j]} *)
+Lemma unit_vector_spec n ones i j : (i < n)%nat -> (j < n)%nat ->
+  nth j (nth i (unit_vector_payoff0 n ones) []) 0 = if (Z.of_nat i =? nth j ones (-1)%Z)%Z then 1 else 0.
+Proof. intros Hi Hj. unfold unit_vector_payoff0. apply tab2_nth; assumption. Qed.
